@@ -594,6 +594,10 @@ class Num:
             bv = self.val(fn.d(n["a"][0]), st)
             if bv is None:
                 return None
+            # *p where p holds the address of a named object (&x handed to an expanded helper's out-parameter): x itself
+            for k0, v0 in st.env.items():
+                if k0.startswith("&") and v0 == bv:
+                    return k0[1:]
             b_ = self.base_of(st, bv)
             return b_[:-1] if b_.endswith(".") else b_
         if k == "cast" or k == "decay":
@@ -1083,8 +1087,18 @@ class Num:
             if op == "deref":
                 pv = self.val(x, st)
                 if "w" in t or t.get("ptr"):
+                    if pv is not None:
+                        for k0, v0 in st.env.items():
+                            if k0.startswith("&") and v0 == pv and (k0[1:].startswith("v:") or k0[1:] in st.env):
+                                # *p where p holds the address of a named object: the object's own value
+                                if k0[1:] not in st.env:
+                                    st.env[k0[1:]] = Poly.atom(self.fresh(st, k0[1:].split(":")[-1], t))
+                                    st.meta[k0[1:]] = (None, None, t.get("c"))
+                                return st.env[k0[1:]]
                     if pv is not None and "w" in t:
                         return self.cell_read(st, pv, t["w"] // 8, t)
+                    if pv is not None and t.get("ptr") and self._tracked(st, pv):
+                        return self.cell_read(st, pv, 8, t)  # a pointer stored in a tracked object: the same until the next store
                     return Poly.atom(self.fresh(st, "deref", t))
                 return None
             if op == "addr":
